@@ -320,33 +320,41 @@ func (c *c04state) shape() string {
 			}
 		}
 	}
-	// the last registration that changed what is registered on the ledger; what
-	// counts is when the watcher collected the states for it: it retrieves the
-	// parent and each sub-channel (1 ms wait each, plus yields) just before it
-	// issues the call, so a state enabled within 3 ms before the call was issued
-	// may or may not have been seen (may-zone)
-	var lastReg time.Duration
-	any := false
-	var maxV uint64
-	for _, r := range p.w.Ledger.CallsOf("Register", id) {
-		if r.Err == "" && (!any || r.Version > maxV) {
-			lastReg, any, maxV = r.Issued-3*time.Millisecond, true, r.Version
-		}
-	}
-	if !any {
-		return "@other"
-	}
-	// any channel of the tree: did the honest client enable a state after the
-	// states for the last effective registration were collected?
+	// Known window: for some channel X of the tree the honest client's newest
+	// enabled state S is not what is registered, and after S was enabled no
+	// registered event for X with a lower version reached the honest watcher's
+	// subscription for X - the unmodified watcher compares versions only when
+	// such an event arrives, so it never had the occasion to register S.
+	// (If such an event did arrive after S was enabled, an unmodified watcher
+	// refutes with S; a missing refutation then is a different defect.)
 	ids := []channel.ID{id}
 	for _, si := range p.subs {
 		ids = append(ids, si.id)
 	}
+	unregistered, explained := 0, 0
 	for _, cid := range ids {
 		l := h.Rec.EnabledOf(cid)
-		if len(l) > 0 && l[len(l)-1].At > lastReg {
-			return "@newest-state-enabled-after-last-registration"
+		if len(l) == 0 {
+			continue
 		}
+		newest := l[len(l)-1]
+		rv, _, _, rok := p.w.Ledger.Registered(cid)
+		if !rok || rv >= newest.Version {
+			continue
+		}
+		unregistered++
+		occasion := false
+		for _, d := range p.w.Ledger.Deliveries(p.w.Ledger.FirstSubName(h.Name, cid)) {
+			if d.Registered && d.Version < newest.Version && d.At > newest.At {
+				occasion = true
+			}
+		}
+		if !occasion {
+			explained++
+		}
+	}
+	if unregistered > 0 && explained == unregistered {
+		return "@newest-state-enabled-after-last-registration"
 	}
 	return "@newest-state-enabled-before-last-registration"
 }
